@@ -1553,3 +1553,112 @@ func (w *qWorld) checkLate() {
 		w.rc.Probe("late_checked")
 	}
 }
+
+// checkDeferredLate (C04, "boundedly late", the delayed half): called after a
+// pure clock advance [advStart, now], during which no client did anything. A
+// message that was requeued with a delay, or published deferred, and whose
+// delay ran out at `due` must have been handed out by max(due, advStart) +
+// scan slack if the channel has a consumer that was able to receive for that
+// whole time: subscribed, not closing, holding fewer unanswered messages than
+// its RDY count (nothing was answered during the advance; everything it was
+// ever given and did not answer is counted, an upper bound for every instant
+// of the advance), channel and topic not paused.
+func (w *qWorld) checkDeferredLate(adv time.Duration) {
+	now := time.Now()
+	advStart := now.Add(-adv)
+	slack := w.lateSlack()
+	if adv <= slack {
+		return
+	}
+	// the messages every channel still owes (with all the exemptions of the conservation oracle)
+	owedBy := map[string][]*msgChan{}
+	for _, mc := range w.owed() {
+		owedBy[mc.ck] = append(owedBy[mc.ck], mc)
+	}
+	for _, k := range w.sortedChanKeys() {
+		cm := w.chans[k]
+		if cm == nil || !cm.Exists || cm.Paused || cm.Unordered || cm.Uncertain || cm.Sampled || cm.Ephemeral || cm.pendingVoid {
+			continue
+		}
+		t := w.topic(cm.Topic)
+		if t == nil || !t.Exists || t.Paused || t.Ephemeral {
+			continue
+		}
+		if !advStart.After(w.lastRestartAt) || cm.unpausedAt.After(advStart) || cm.VoidAt.After(advStart) {
+			continue
+		}
+		// a consumer that was able to receive during the whole advance
+		var idle *consumer
+		for _, co := range w.cons {
+			if co.ck != k || co.Dead || !co.Subscribed || co.Closing || co.Rdy < 1 || co.OBT < 0 || co.Sample > 0 || co.fatalSent || co.expectClose || co.cl.Closed() {
+				continue
+			}
+			if co.RdyStep >= w.epoch || co.SubStep >= w.epoch {
+				continue
+			}
+			// everything it was ever given and has not answered counts as held (also what has timed out and
+			// moved on since): an upper bound of what it held at any instant of the advance
+			var held int64
+			unknown := false
+			for _, d := range co.Dels {
+				if d.Answer == "" && !d.Voided {
+					held++
+				}
+				if d.Answer != "" && !d.AnsKnown {
+					unknown = true // an answer whose outcome is not known
+				}
+			}
+			if !unknown && held < co.Rdy {
+				idle = co
+				break
+			}
+		}
+		if idle == nil {
+			continue
+		}
+		for _, mc := range owedBy[k] {
+			if _, gone := cm.discarded[mc.pub.Key]; gone {
+				continue
+			}
+			var due time.Time
+			what := ""
+			if last := lastDel(mc); last != nil {
+				if last.Answer != "req" || !last.AnsOK || !last.AnsKnown || last.Voided || last.fateUnknown || last.maybeAnswered || last.lifetime != w.lifetime || last.ReqDelay <= 0 {
+					continue
+				}
+				delay := last.ReqDelay
+				if max := ms(w.cfg.MaxReqTimeoutMs); delay > max {
+					delay = max
+				}
+				due = last.AnsAt.Add(delay)
+				what = fmt.Sprintf("requeued by %s at %v with delay %v", last.cons.cl.Name, last.AnsAt.Sub(w.rc.start), last.ReqDelay)
+			} else {
+				p := mc.pub
+				if p.DeferMs <= 0 || !p.Acked || p.lifetime != w.lifetime || p.TopicPausedAtSend {
+					continue
+				}
+				onChan := false
+				for _, name := range p.ChansAtPub {
+					if name == cm.Name {
+						onChan = true
+					}
+				}
+				if !onChan {
+					continue
+				}
+				due = p.AckAt.Add(ms(p.DeferMs))
+				what = fmt.Sprintf("published deferred by %dms, acknowledged at %v", p.DeferMs, p.AckAt.Sub(w.rc.start))
+			}
+			from := due
+			if advStart.After(from) {
+				from = advStart
+			}
+			w.rc.Probe("deferred_late_checked")
+			if now.Sub(from) > slack {
+				w.violate("C04", "delayed-message-late", "m%06d on %s (%s) was due at %v; %s was able to receive (RDY %d, fewer messages unanswered) from %v to %v and did not get it within the scan slack %v",
+					mc.pub.N, k, what, due.Sub(w.rc.start), idle.cl.Name, idle.Rdy, from.Sub(w.rc.start), now.Sub(w.rc.start), slack)
+				return
+			}
+		}
+	}
+}
